@@ -107,6 +107,8 @@ ConcatSlices(fs, as, i) ==
 EntryReadable(fs, e) == \A i \in 1..Len(e.a) : AddrOK(fs, e.a[i])
 FileBytes(fs, e)     == ConcatSlices(fs, e.a, 1)
 
+AllReadable(fs, es)  == \A i \in 1..Len(es) : EntryReadable(fs, es[i])
+
 RECURSIVE SumLens(_, _)
 SumLens(as, i) == IF i > Len(as) THEN 0 ELSE as[i].n + SumLens(as, i + 1)
 EntrySize(e) == SumLens(e.a, 1)
